@@ -7,7 +7,7 @@ SPEC = dict(
     property='C11',
     groups=[
         dict(name='carbon', harness='h.cpp', tus=TUS, models=MODELS, loop_bounds={r'^_ZNSt6ranges14__copy_or_move': 100},
-             instances=[I('v2_tree', 'h_v2'), I('v1_tree', 'h_v1'), I('first_child', 'h_first_child', bound='parent (possibly null) with 0..3 children, tags/namespaces as above, query tag/namespace from the same tables or empty')]),
+             instances=[I('v2_tree', 'h_v2'), I('v1_tree', 'h_v1'), I('v2_nofrom', 'h_v2_nofrom'), I('v1_nofrom', 'h_v1_nofrom'), I('first_child', 'h_first_child', bound='parent (possibly null) with 0..3 children, tags/namespaces as above, query tag/namespace from the same tables or empty')]),
     ],
     bounds=[BOUND],
     assumptions=[],
